@@ -78,6 +78,8 @@ def build_impl(tree, ops):
     if k == "pow":
         return build_impl(tree[1], ops) ** sympy.Integer(tree[2])
     a, b = build_impl(tree[1], ops), build_impl(tree[2], ops)
+    if k == "div":  # __truediv__
+        return a / b
     if k == "mul":
         return a * b
     if k == "add":
@@ -104,6 +106,8 @@ def to_sympy(tree, ops):
     if k == "pow":
         return to_sympy(tree[1], ops) ** sympy.Integer(tree[2])
     a, b = to_sympy(tree[1], ops), to_sympy(tree[2], ops)
+    if k == "div":
+        return a / b
     if k == "mul":
         return a * b
     if k == "add":
@@ -134,7 +138,7 @@ def tree_str(tree, modes):
         return "(%s)†" % tree_str(tree[1], modes)
     if k == "pow":
         return "(%s)^%d" % (tree_str(tree[1], modes), tree[2])
-    sym = {"mul": "*", "add": "+", "sub": "-"}[k]
+    sym = {"mul": "*", "add": "+", "sub": "-", "div": "/"}[k]
     return "(%s %s %s)" % (tree_str(tree[1], modes), sym, tree_str(tree[2], modes))
 
 
@@ -220,6 +224,8 @@ def coq_tree(t):
         return "(TAdj %s)" % coq_tree(t[1])
     if k == "pow":
         return "(TPow %s %s)" % (coq_tree(t[1]), cz(t[2]))
+    if k == "div":  # x / y is x * y**-1 in the code
+        return "(TMul %s (TPow %s (-1)%%Z))" % (coq_tree(t[1]), coq_tree(t[2]))
     return "(%s %s %s)" % ({"mul": "TMul", "add": "TAdd", "sub": "TSub"}[k], coq_tree(t[1]), coq_tree(t[2]))
 
 
